@@ -144,14 +144,16 @@ func (k Keeper) EditToken(
 	}
 
 	if maxSupply > 0 {
+		// compare in minimum units: a supply with a fractional main-unit part
+		// (e.g. after a burn of half a unit) must not be rounded down
 		issuedAmt := k.getTokenSupply(ctx, token.MinUnit)
-		issuedMainUnitAmt := issuedAmt.Quo(sdkmath.NewIntWithDecimal(1, int(token.Scale)))
+		precision := sdkmath.NewIntWithDecimal(1, int(token.Scale))
 
-		if sdkmath.NewIntFromUint64(maxSupply).LT(issuedMainUnitAmt) {
+		if sdkmath.NewIntFromUint64(maxSupply).Mul(precision).LT(issuedAmt) {
 			return errorsmod.Wrapf(
 				types.ErrInvalidMaxSupply,
-				"max supply must not be less than %s",
-				issuedMainUnitAmt,
+				"max supply must not be less than %s%s",
+				issuedAmt, token.MinUnit,
 			)
 		}
 
